@@ -128,7 +128,9 @@ def run(tier, seed):
         for flag in ('-p', '--print-with-functions'):
             out = cli_output(k, m['text'], [flag])
             rep.evaluations += 1
-            if out is None or impl.norm_uuid(out).strip() != impl.norm_uuid(m['fn']).strip():
+            # (the implementation prints its 'Warning: ...' lines on the same stream, before the program)
+            prog_out = None if out is None else '\n'.join(l for l in out.split('\n') if not l.startswith('Warning: '))
+            if prog_out is None or impl.norm_uuid(prog_out).strip() != impl.norm_uuid(m['fn']).strip():
                 rep.violation('the command line option %s does not print the function-term program' % flag,
                               dict(text=m['text'], option=flag, command_line_output=out, function_term_program=m['fn'], default_program=m['flat']))
                 break
